@@ -202,7 +202,13 @@ void run_case(uint64_t idx, Rng& r) {
   if (idx == 5) { big_sparse(r, 20); return; }
   if (T && idx == 11) { big_sparse(r, 26); return; }
   if (T && idx % 1500 == 17) { big_sparse(r, static_cast<uint8_t>(r.range(17, 22))); return; }
-  if (r.chance(0.62)) hashed_stream(r, T); else synthetic(r, T);
+  const bool hashed = r.chance(0.62);
+  try {
+    if (hashed) hashed_stream(r, T); else synthetic(r, T);
+  } catch (const std::exception& e) {
+    // no update / read-out / serialization of a valid sketch is allowed to throw
+    fail(hashed ? "stream|threw" : "synthetic|threw", G().cur_desc + " what=" + e.what());
+  }
 }
 
 } // namespace vf
